@@ -65,7 +65,7 @@ def build(style):
     with quiet():
         fd = FiniteDifference(param, boundary='periodic', fd_order=2,
                               verbose=False)
-        rel = AurelCore(fd, verbose=False,
+        rel = AurelCore(fd, verbose=False, Lambda=LAMBDA,
                         clear_cache_every_nbr_calc=10 ** 9)
     base = {'alpha': alpha, 'betaup3': beta, 'gammadown3': g}
     fluid = {'press': press, 'w_lorentz': W, 'velx': v[0], 'vely': v[1],
@@ -250,7 +250,7 @@ def _run_style(style):
         R3a = rel.st_Ricci_down3()                  # from T directly
         R4 = rel['st_Ricci_down4']
         R3b = rel.st_Ricci_down3()                  # slice of st_Ricci_down4
-        want4 = KAPPA * (cf['T'] - 0.5 * ttr * g4)
+        want4 = LAMBDA * g4 + KAPPA * (cf['T'] - 0.5 * ttr * g4)
         chk('st_Ricci_down4=kappa(T-Tg/2)', R4, want4, extra=1e3)
         chk('st_Ricci_down3 (from T)', R3a, want4[1:, 1:], extra=1e3)
         chk('st_Ricci_down3 (from st_Ricci_down4)', R3b, want4[1:, 1:],
@@ -263,7 +263,7 @@ def _run_style(style):
     fresh = {}
     for key in keys2:
         with quiet():
-            r2 = AurelCore(ref['fd'], verbose=False,
+            r2 = AurelCore(ref['fd'], verbose=False, Lambda=LAMBDA,
                            clear_cache_every_nbr_calc=10 ** 9)
             r2.data.update(inp)
             r2.freeze_data()
@@ -279,7 +279,7 @@ def _run_style(style):
             if kx == ky:
                 continue
             with quiet():
-                r2 = AurelCore(ref['fd'], verbose=False,
+                r2 = AurelCore(ref['fd'], verbose=False, Lambda=LAMBDA,
                                clear_cache_every_nbr_calc=10 ** 9)
                 r2.data.update(inp)
                 r2.freeze_data()
@@ -290,6 +290,9 @@ def _run_style(style):
             'points': len(ref['pts'])}
 
 
+# a non-zero cosmological constant throughout: it only enters the Ricci
+# tensor derived from T, R_mn = Lambda g_mn + kappa (T_mn - T g_mn / 2)
+LAMBDA = 0.35
 STYLES = ('fluid', 'rho', 'rho+rho0', 'Tdown4')
 FLUID_ONLY = ('rho', 'rho0', 'eps', 'enthalpy', 'uup4', 'udown4', 'hdown4',
               'hmixed4', 'hup4', 'conserved_D', 'conserved_E',
